@@ -16,13 +16,16 @@ package tree
 // ---- structural invariant (C03), with one node `exc` allowed to be one key short ----
 // t.nodes is the set of nodes linked into t; x.owner names the tree for functions that only get a node.
 
-//@ pred nodeOK(t, x, exc) = x != nil && alloc(x) && x.owner == t && 0 <= x.n && x.n <= 15
+//@ pred nodeLoc(t, x, exc) = x != nil && alloc(x) && x.owner == t && 0 <= x.n && x.n <= 15
 //@   && (x != t.root && x != exc ==> x.n >= 7) && (x != t.root && x == exc ==> x.n >= 6)
-//@   && x.height >= 0 && ((x.children[0] == nil) <==> x.height == 0)
-//@   && (x != t.root ==> x.parent != nil && t.nodes[x.parent] && 0 <= x.pidx && x.pidx <= x.parent.n && x.parent.children[x.pidx] == x && x.parent.height == x.height + 1)
+//@   && x.height >= 0
+// (leaf <==> height 0 follows from the children clause of structOK; stating it here would chain down the leftmost children)
+// the upward facts are instantiated only for nodes whose parent field is looked at (no chain up the ancestors)
+//@ pred nodeUp(t, x, det) = (x != t.root && x != det ==> x.parent != nil && t.nodes[x.parent] && 0 <= x.pidx && x.pidx <= x.parent.n && x.parent.children[x.pidx] == x && x.parent.height == x.height + 1)
 //@   && (x == t.root ==> x.parent == nil)
-//@ pred structOK(t, exc) = t != nil && t.root != nil && t.nodes[t.root] && t.compare != nil && !t.nodes[nil] && (t.root.n == 0 && exc != t.root ==> t.root.height == 0)
-//@   && (forall x *node[K, V] {t.nodes[x]} :: t.nodes[x] ==> nodeOK(t, x, exc))
+//@ pred structOK(t, exc, det) = t != nil && t.root != nil && t.nodes[t.root] && t.compare != nil && !t.nodes[nil] && (t.root.n == 0 && exc != t.root ==> t.root.height == 0)
+//@   && (forall x *node[K, V] {t.nodes[x]} :: t.nodes[x] ==> nodeLoc(t, x, exc))
+//@   && (forall x *node[K, V] {x.parent} :: t.nodes[x] ==> nodeUp(t, x, det))
 //@   && (forall x *node[K, V], j int {x.children[j]} :: t.nodes[x] && 0 <= j && j <= 15 ==>
 //@        (x.height == 0 ==> x.children[j] == nil)
 //@        && (x.height > 0 && j <= x.n ==> x.children[j] != nil && t.nodes[x.children[j]] && x.children[j].parent == x && x.children[j].pidx == j)
@@ -34,6 +37,7 @@ package tree
 
 //@ func removeOne
 //@   props C03
+//@   noalloc
 //@   requires 0 <= idx && idx < len(a)
 //@   modifies elems(a)
 //@   ensures forall t int {a[t]} :: 0 <= t && t < idx ==> a[t] == old(a[t])
@@ -43,6 +47,7 @@ package tree
 
 //@ func insertOne
 //@   props C03
+//@   noalloc
 //@   requires 0 <= idx && idx < len(a)
 //@   modifies elems(a)
 //@   ensures forall t int {a[t]} :: 0 <= t && t < idx ==> a[t] == old(a[t])
@@ -54,6 +59,7 @@ package tree
 
 //@ func btree.searchNode
 //@   props C01 C03
+//@   noalloc
 //@   requires x != nil && 0 <= x.n && x.n <= 15 && t.compare != nil
 //@   ghostinit cc := 0
 //@   after call compare[0]: ghost cc := cc + 1
@@ -65,13 +71,15 @@ package tree
 
 //@ func leftmostLeaf
 //@   props C01 C03
-//@   requires x != nil && x.owner != nil && x.owner.nodes[x] && structOK(x.owner, nil)
+//@   noalloc
+//@   requires x != nil && x.owner != nil && x.owner.nodes[x] && structOK(x.owner, nil, nil)
 //@   loop 0: invariant curr != nil && x.owner.nodes[curr] && curr.height <= x.height
 //@   ensures result != nil && x.owner.nodes[result] && result.height == 0
 
 //@ func rightmostLeaf
 //@   props C01 C03
-//@   requires x != nil && x.owner != nil && x.owner.nodes[x] && structOK(x.owner, nil)
+//@   noalloc
+//@   requires x != nil && x.owner != nil && x.owner.nodes[x] && structOK(x.owner, nil, nil)
 //@   loop 0: invariant curr != nil && x.owner.nodes[curr] && curr.height <= x.height && (x != x.owner.root ==> curr != x.owner.root)
 //@   ensures result != nil && x.owner.nodes[result] && result.height == 0 && (x != x.owner.root ==> result != x.owner.root)
 
@@ -81,7 +89,7 @@ package tree
 //@   ghost result.root.owner := result
 //@   ghost result.nodes := single(result.root)
 //@   ghost result.root.height := 0
-//@   ensures fresh(result) && result.size == 0 && result.gen == 0 && result.compare == compare && structOK(result, nil) && result.root.n == 0
+//@   ensures fresh(result) && result.size == 0 && result.gen == 0 && result.compare == compare && structOK(result, nil, nil) && result.root.n == 0
 
 // ---- read paths: structure only (no panic, one searchNode per level) ----
 
@@ -91,7 +99,7 @@ package tree
 
 //@ func btree.Get
 //@   props C03
-//@   requires structOK(t, nil)
+//@   requires structOK(t, nil, nil)
 //@   ghostinit lv := 0
 //@   after call searchNode[0]: ghost lv := lv + 1
 //@   loop 0: invariant (curr == nil || t.nodes[curr]) && 0 <= lv && (curr != nil ==> lv + curr.height == t.root.height) && (curr == nil ==> lv <= t.root.height + 1)
@@ -99,7 +107,7 @@ package tree
 
 //@ func btree.Contains
 //@   props C03
-//@   requires structOK(t, nil)
+//@   requires structOK(t, nil, nil)
 //@   ghostinit lv := 0
 //@   after call searchNode[0]: ghost lv := lv + 1
 //@   loop 0: invariant (curr == nil || t.nodes[curr]) && 0 <= lv && (curr != nil ==> lv + curr.height == t.root.height) && (curr == nil ==> lv <= t.root.height + 1)
@@ -107,51 +115,56 @@ package tree
 
 //@ func btree.First
 //@   props C03
-//@   requires structOK(t, nil)
+//@   requires structOK(t, nil, nil)
 
 //@ func btree.Last
 //@   props C03
-//@   requires structOK(t, nil)
+//@   requires structOK(t, nil, nil)
 
 // ---- mutations: the structural invariant is re-established (C03) ----
 
 //@ func btree.insertIntoLeaf
 //@   props C03
-//@   requires structOK(t, nil) && t.nodes[x] && x.height == 0 && x.n < 15
+//@   noalloc
+//@   requires structOK(t, nil, nil) && t.nodes[x] && x.height == 0 && x.n < 15
 //@   modifies x.n, x.keys, x.values
 //@   loop 0: invariant 0 <= idx && idx <= x.n
-//@   ensures structOK(t, nil) && x.n == old(x.n) + 1
+//@   ensures structOK(t, nil, nil) && x.n == old(x.n) + 1
 
 //@ func btree.siblings
 //@   props C03
-//@   requires structOK(t, x) && t.nodes[x]
+//@   noalloc
+//@   requires structOK(t, x, nil) && t.nodes[x]
 //@   ensures x == t.root ==> result0 == nil && result1 == nil
 //@   ensures x != t.root ==> (x.pidx > 0 ==> result0 == x.parent.children[x.pidx-1] && t.nodes[result0]) && (x.pidx == 0 ==> result0 == nil)
 //@   ensures x != t.root ==> (x.pidx < x.parent.n ==> result1 == x.parent.children[x.pidx+1] && t.nodes[result1]) && (x.pidx >= x.parent.n ==> result1 == nil)
 
 //@ func btree.rotateRight
 //@   props C03
-//@   requires structOK(t, right) && t.nodes[left] && t.nodes[right] && left != t.root && right != t.root && left.parent == right.parent && right.pidx == left.pidx + 1
+//@   noalloc
+//@   requires structOK(t, right, nil) && t.nodes[left] && t.nodes[right] && left != t.root && right != t.root && left.parent == right.parent && right.pidx == left.pidx + 1
 //@   requires left.n > 7 && right.n < 15
 //@   modifies left.n, right.n, left.keys, left.values, left.children, right.keys, right.values, right.children, left.parent.keys, left.parent.values, left.children[left.n].parent, all(left.pidx)
 //@   after call insertOne[2]: ghostmap c *node[K, V] . pidx := (c != nil && c == old(left.children[left.n])) ? 0 : ((c != nil && old(c.parent) == right && t.nodes[c]) ? old(c.pidx) + 1 : old(c.pidx))
-//@   ensures structOK(t, nil) && left.n == old(left.n) - 1 && right.n == old(right.n) + 1 && t.nodes == old(t.nodes) && t.root == old(t.root)
+//@   ensures structOK(t, nil, nil) && left.n == old(left.n) - 1 && right.n == old(right.n) + 1 && t.nodes == old(t.nodes) && t.root == old(t.root)
 
 //@ func btree.rotateLeft
 //@   props C03
-//@   requires structOK(t, left) && t.nodes[left] && t.nodes[right] && left != t.root && right != t.root && left.parent == right.parent && right.pidx == left.pidx + 1
+//@   noalloc
+//@   requires structOK(t, left, nil) && t.nodes[left] && t.nodes[right] && left != t.root && right != t.root && left.parent == right.parent && right.pidx == left.pidx + 1
 //@   requires right.n > 7 && left.n < 15
 //@   modifies left.n, right.n, left.keys, left.values, left.children, right.keys, right.values, right.children, right.parent.keys, right.parent.values, right.children[0].parent, all(left.pidx)
 //@   after call removeOne[2]: ghostmap c *node[K, V] . pidx := (c != nil && c == old(right.children[0])) ? old(left.n) + 1 : ((c != nil && old(c.parent) == right && t.nodes[c]) ? old(c.pidx) - 1 : old(c.pidx))
-//@   ensures structOK(t, nil) && left.n == old(left.n) + 1 && right.n == old(right.n) - 1 && t.nodes == old(t.nodes) && t.root == old(t.root)
+//@   ensures structOK(t, nil, nil) && left.n == old(left.n) + 1 && right.n == old(right.n) - 1 && t.nodes == old(t.nodes) && t.root == old(t.root)
 
 //@ func btree.steal
 //@   props C03
-//@   requires structOK(t, x) && t.nodes[x] && x.n < 15
+//@   noalloc
+//@   requires structOK(t, x, nil) && t.nodes[x] && x.n < 15
 //@   modifies all(x.n), all(x.keys), all(x.values), all(x.children), all(x.parent), all(x.pidx)
 //@   ensures t.nodes == old(t.nodes) && t.root == old(t.root)
-//@   ensures result ==> structOK(t, nil) && x.n == old(x.n) + 1
-//@   ensures !result ==> structOK(t, x) && x.n == old(x.n) && (x != t.root ==> (x.pidx > 0 ==> x.parent.children[x.pidx-1].n <= 7) && (x.pidx < x.parent.n ==> x.parent.children[x.pidx+1].n <= 7))
+//@   ensures result ==> structOK(t, nil, nil) && x.n == old(x.n) + 1
+//@   ensures !result ==> structOK(t, x, nil) && x.n == old(x.n) && (x != t.root ==> (x.pidx > 0 ==> x.parent.children[x.pidx-1].n <= 7) && (x.pidx < x.parent.n ==> x.parent.children[x.pidx+1].n <= 7))
 //@   ensures !result ==> (forall c *node[K, V] {c.parent} :: c.parent == old(c.parent)) && (forall c *node[K, V] {c.pidx} :: c.pidx == old(c.pidx)) && (forall c *node[K, V] {c.n} :: c.n == old(c.n))
 //@   ensures !result ==> (forall c *node[K, V], j int {c.children[j]} :: 0 <= j && j <= 15 ==> c.children[j] == old(c.children[j]))
 
@@ -160,34 +173,121 @@ package tree
 
 //@ func btree.merge
 //@   props C03
-//@   requires structOK(t, x) && t.nodes[x] && x != t.root && x.n <= 6 && sibsSmall(x)
+//@   noalloc
+//@   requires structOK(t, x, nil) && t.nodes[x] && x != t.root && x.n <= 6 && sibsSmall(x)
 //@   modifies t.root, t.nodes, all(x.n), all(x.keys), all(x.values), all(x.children), all(x.parent), all(x.pidx)
-//@   ensures structOK(t, nil)
+//@   ensures structOK(t, nil, nil)
 //@   ensures forall c *node[K, V] {t.nodes[c]} :: t.nodes[c] ==> old(t.nodes)[c]
 
 //@ func btree.mergeTwo
 //@   props C03
-//@   requires structOK(t, left.n < 7 ? left : right) && t.nodes[left] && t.nodes[right] && left != t.root && right != t.root
+//@   noalloc
+//@   requires structOK(t, left.n < 7 ? left : right, nil) && t.nodes[left] && t.nodes[right] && left != t.root && right != t.root
 //@   requires left.parent == right.parent && right.pidx == left.pidx + 1 && left.n + right.n <= 14
 //@   modifies t.root, t.nodes, all(left.n), all(left.keys), all(left.values), all(left.children), all(left.parent), all(left.pidx)
 //@   loop 0: invariant 0 <= i && i <= right.n + 1 && (forall c *node[K, V] {c.parent} :: c.parent == ((old(c.parent) == right && t.nodes[c] && old(c.pidx) < i) ? left : old(c.parent)))
 //@   after call removeOne[2]: ghostmap c *node[K, V] . pidx := (old(c.parent) == right && t.nodes[c]) ? old(c.pidx) + old(left.n) + 1 : ((old(c.parent) == old(left.parent) && t.nodes[c] && old(c.pidx) > old(right.pidx)) ? old(c.pidx) - 1 : old(c.pidx))
 //@   after call removeOne[2]: ghost t.nodes := store(t.nodes, right, false)
 //@   ghost t.nodes := (t.root == left && old(left.parent) == old(t.root)) ? store(t.nodes, old(t.root), false) : t.nodes
-//@   ensures structOK(t, nil)
+//@   ensures structOK(t, nil, nil)
 //@   ensures forall c *node[K, V] {t.nodes[c]} :: t.nodes[c] ==> old(t.nodes)[c]
 
 //@ func btree.removeRightmost
 //@   props C03
-//@   requires structOK(t, nil) && t.nodes[x] && x != t.root
+//@   noalloc
+//@   requires structOK(t, nil, nil) && t.nodes[x] && x != t.root
 //@   modifies all(x.n), all(x.keys), all(x.values)
-//@   ensures result2 == nil ==> structOK(t, nil)
-//@   ensures result2 != nil ==> structOK(t, result2) && t.nodes[result2] && result2 != t.root && result2.n < 7 && result2.height == 0
+//@   ensures result2 == nil ==> structOK(t, nil, nil)
+//@   ensures result2 != nil ==> structOK(t, result2, nil) && t.nodes[result2] && result2 != t.root && result2.n < 7 && result2.height == 0
 //@   ensures forall c *node[K, V] {c.n} :: c.height > 0 ==> c.n == old(c.n)
 
 //@ func btree.Delete
 //@   props C03
-//@   requires structOK(t, nil)
+//@   noalloc
+//@   requires structOK(t, nil, nil)
 //@   modifies t.size, t.gen, t.root, t.nodes, all(t.root.n), all(t.root.keys), all(t.root.values), all(t.root.children), all(t.root.parent), all(t.root.pidx)
-//@   loop 0: invariant curr != nil && t.nodes[curr]
-//@   ensures structOK(t, nil)
+//@   loop 0: invariant curr != nil && t.nodes[curr] && structOK(t, nil, nil)
+//@   ensures structOK(t, nil, nil)
+
+// ---- amalgam1: a read-only view of a full node plus one extra key/value/child ----
+
+//@ func newAmalgam1
+//@   props C03
+//@   requires compare != nil && len(keys) == 15 && len(values) == 15 && len(children) == 16
+//@   loop 0: invariant true
+//@   ensures result.keys == keys && result.values == values && result.children == children
+//@   ensures result.extraKey == extraKey && result.extraValue == extraValue && result.extraChild == extraChild
+//@   ensures 0 <= result.extraIdx && result.extraIdx <= 15
+
+//@ pred amOK(a) = a != nil && len(a.keys) == 15 && len(a.values) == 15 && len(a.children) == 16 && 0 <= a.extraIdx && a.extraIdx <= 15
+
+//@ func amalgam1.Len
+//@   props C03
+//@   ispure
+//@   ensures result == 16
+
+//@ func amalgam1.Key
+//@   props C03
+//@   ispure
+//@   requires amOK(a) && 0 <= i && i <= 15
+//@   ensures result == (i == a.extraIdx ? a.extraKey : a.keys[i > a.extraIdx ? i - 1 : i])
+
+//@ func amalgam1.Value
+//@   props C03
+//@   ispure
+//@   requires amOK(a) && 0 <= i && i <= 15
+//@   ensures result == (i == a.extraIdx ? a.extraValue : a.values[i > a.extraIdx ? i - 1 : i])
+
+//@ func amalgam1.Child
+//@   props C03
+//@   ispure
+//@   requires amOK(a) && 0 <= i && i <= 16
+//@   ensures result == (i == a.extraIdx + 1 ? a.extraChild : a.children[i > a.extraIdx + 1 ? i - 1 : i])
+
+// ---- overfill: split of a full node, the separator climbs; afterK is the not-yet-linked new right sibling
+// produced one level below (nil at the leaf level) ----
+
+//@ pred pendOK(t, x, afterK) = structOK(t, nil, afterK) && t.nodes[x] && x.n == 15
+//@   && (afterK == nil <==> x.height == 0)
+//@   && (afterK != nil ==> t.nodes[afterK] && afterK != t.root && afterK != x && afterK.height == x.height - 1
+//@        && (forall p *node[K, V], j int {p.children[j]} :: t.nodes[p] && 0 <= j && j <= 15 ==> p.children[j] != afterK))
+// position of child c in the amalgam (children of x plus afterK right after key e), and the child at position p
+//@ pred amPos(c, afterK, e) = c == afterK ? e + 1 : (c.pidx <= e ? c.pidx : c.pidx + 1)
+//@ pred amChild(x, afterK, e, p) = p == e + 1 ? afterK : x.children[p > e + 1 ? p - 1 : p]
+//@ pred isAm(t, c, x, afterK, right) = c != nil && (c == afterK || (t.nodes[c] && c != right && iter(0, c.parent) == x))
+
+//@ func btree.overfill
+//@   props C03
+//@   requires pendOK(t, x, afterK)
+//@   modifies t.root, t.nodes, all(x.n), all(x.keys), all(x.values), all(x.children), all(x.parent), all(x.pidx), all(x.owner), all(x.height)
+//@   loop 0: invariant pendOK(t, x, afterK)
+//@   after assign right[0]: ghost right.owner := t
+//@   after assign right[0]: ghost right.height := x.height
+//@   after assign right[0]: ghost t.nodes := store(t.nodes, right, true)
+//@   loop 1: modifies right.keys, right.values
+//@   loop 1: invariant 0 <= i && i <= 7 && (forall j int {right.keys[j]} :: 7 <= j && j < 15 ==> right.keys[j] == zero(K)) && (forall j int {right.values[j]} :: 7 <= j && j < 15 ==> right.values[j] == zero(V))
+//@   loop 2: modifies right.children, all(x.parent)
+//@   loop 2: invariant 0 <= i && i <= 8
+//@   loop 2: invariant forall j int {right.children[j]} :: (0 <= j && j < i ==> right.children[j] == amChild(x, afterK, all.extraIdx, 9 + j)) && (i <= j && j <= 15 ==> right.children[j] == nil)
+//@   loop 2: invariant right.parent == nil && forall c *node[K, V] {c.parent} :: c != right ==> c.parent == ((isAm(t, c, x, afterK, right) && 9 <= amPos(c, afterK, all.extraIdx) && amPos(c, afterK, all.extraIdx) < 9 + i) ? right : iter(0, c.parent))
+//@   loop 3: modifies left.keys, left.values
+//@   loop 3: invariant 0 - 1 <= i && i <= 7
+//@   loop 4: modifies left.children, all(x.parent)
+//@   loop 4: invariant 0 - 1 <= i && i <= 8
+//@   loop 4: invariant let e = all.extraIdx in forall j int {left.children[j]} :: (i < j && j <= 8 ==> left.children[j] == iter(0, amChild(x, afterK, e, j))) && (((0 <= j && j <= i) || (8 < j && j <= 15)) ==> left.children[j] == iter(0, x.children[j]))
+//@   loop 4: invariant right.parent == nil && forall c *node[K, V] {c.parent} :: c != right ==> c.parent == ((isAm(t, c, x, afterK, right) && 9 <= amPos(c, afterK, all.extraIdx)) ? right : ((isAm(t, c, x, afterK, right) && i < amPos(c, afterK, all.extraIdx)) ? left : iter(0, c.parent)))
+//@   after call Clear[2]: ghostmap c *node[K, V] . pidx := isAm(t, c, x, afterK, right) ? (amPos(c, afterK, all.extraIdx) <= 8 ? amPos(c, afterK, all.extraIdx) : amPos(c, afterK, all.extraIdx) - 9) : c.pidx
+//@   after assign parent[0]: ghost parent.owner := t
+//@   after assign parent[0]: ghost parent.height := x.height + 1
+//@   after assign parent[0]: ghost t.nodes := store(t.nodes, parent, true)
+//@   after assign parent[0]: ghost left.pidx := 0
+//@   after assign parent[0]: ghost right.pidx := 1
+//@   after call insertOne[2]: ghostmap c *node[K, V] . pidx := c == right ? left.pidx + 1 : ((c.parent == left.parent && t.nodes[c] && c.pidx > left.pidx) ? c.pidx + 1 : c.pidx)
+//@   ensures structOK(t, nil, nil)
+
+//@ func btree.Put
+//@   props C03
+//@   requires structOK(t, nil, nil)
+//@   modifies t.size, t.gen, t.root, t.nodes, all(t.root.n), all(t.root.keys), all(t.root.values), all(t.root.children), all(t.root.parent), all(t.root.pidx), all(t.root.owner), all(t.root.height)
+//@   loop 0: invariant curr != nil && t.nodes[curr] && structOK(t, nil, nil)
+//@   ensures structOK(t, nil, nil)
